@@ -38,7 +38,7 @@ mod registry;
 mod wprog;
 
 use explore::json::J;
-use explore::{explore, ExploreCfg, ExploreResult, RunOpts};
+use explore::{explore, ExploreCfg, ExploreResult, RunOpts, ViolationRec};
 use registry::{checks, Check, Stage};
 use std::collections::BTreeMap;
 use std::time::{Duration, Instant};
@@ -51,6 +51,7 @@ fn verif_dir() -> std::path::PathBuf {
 }
 
 fn main() {
+    let _ = explore::ESCAPED_PANIC.set(harness::classify_escaped_panic);
     let args: Vec<String> = std::env::args().collect();
     let cmd = args.get(1).map(|s| s.as_str()).unwrap_or("");
     match cmd {
@@ -248,7 +249,28 @@ fn run_check(id: &str, tier: &str) -> i32 {
     let mut extra: Option<registry::ExtraResult> = None;
     if let Some(f) = check.extra {
         let remaining = budget.saturating_sub(t0.elapsed()).max(Duration::from_secs(5));
-        let r = f(thorough, seed(), Instant::now() + remaining);
+        // the in-process engines call the code under test directly: a panic there must not take the
+        // driver (and the verdicts of the stages that already ran) with it
+        let deadline = Instant::now() + remaining;
+        let r = match harness::guarded(|| f(thorough, seed(), deadline)) {
+            Ok(r) => r,
+            Err(pi) => {
+                let own = ["mc/src/", "explore/src/", "e57spec/src/", "/engine/"].iter().any(|p| pi.loc.contains(p));
+                let mut r = registry::ExtraResult { states: 0, transitions: 0, traces: 0, exhaustive: false, note: "aborted by a panic".into(), violations: Vec::new(), machinery_errors: Vec::new(), samples: Vec::new(), json: J::obj() };
+                if own {
+                    r.machinery_errors.push(format!("in-process engine panicked at {} ({})", pi.loc, pi.msg));
+                } else {
+                    r.violations.push(ViolationRec {
+                        choices: Vec::new(),
+                        sig: format!("C00/panic-in-library/{}", pi.class()),
+                        detail: format!("the code under test panicked at {} ({}) inside the in-process engine of this check", pi.loc, pi.msg),
+                        desc: "in-process engine".into(),
+                        kind: "oracle",
+                    });
+                }
+                r
+            }
+        };
         eprintln!("[{}] extra stage: states={} transitions={} violations={} {}", id, r.states, r.transitions, r.violations.len(), r.note);
         extra = Some(r);
     }
@@ -290,7 +312,8 @@ fn run_check(id: &str, tier: &str) -> i32 {
         machinery.extend(e.machinery_errors.iter().cloned());
         total_viol += e.violations.len() as u64;
         for v in &e.violations {
-            by_sig.entry(v.sig.clone()).or_insert_with(|| ("extra".to_string(), v.clone()));
+            let sig = if v.sig.starts_with("C00/") { format!("{}{}", check.id, &v.sig[3..]) } else { v.sig.clone() };
+            by_sig.entry(sig).or_insert_with(|| ("extra".to_string(), v.clone()));
         }
     }
     let rdir = verif_dir().join("replays").join(check.id);
